@@ -32,7 +32,7 @@ ONLY_NAMES = ["tech:writemodelonly", "justwriteprob", "justwritemodel"]
 DRV_MODEL = {"vars": [{"lb": 0, "ub": 10, "int": False}, {"lb": 0, "ub": 10, "int": True}],
              "cons": [{"lb": 1, "ub": None, "lin": [[0, 1], [1, 1]]}],
              "objs": [{"max": False, "lin": [[0, 1], [1, 1]]}]}
-DRV_EVENTS = ("FinishOptionParsing", "SetInterrupter", "WriteProblem", "Solve", "Raise", "Raised", "Poll", "ReportResults")
+DRV_EVENTS = ("FinishOptionParsing", "SetInterrupter", "WriteProblem", "Solve", "Raise", "Raised", "Poll", "ReportResults", "BackendDtor")
 
 
 def driver_stage(tier, v, d):
@@ -46,8 +46,11 @@ def driver_stage(tier, v, d):
     if skip.rc != 12 or skip.violated != "InvInterruptible":
         raise Broken("MCDrvSignals: a run that reaches Solve without registration should violate InvInterruptible: rc=%s %s" % (skip.rc, skip.violated))
     scen = sorted(printed_json(mc, "CASE"), key=lambda c: json.dumps(c, sort_keys=True))
-    if len(scen) != 69:
-        raise Broken("MCDrvSignals produced %d scenarios (69 expected)" % len(scen))
+    bfirst = tlc("MCDrvSignals", "MCDrvSignalsBackendFirst.cfg", cwd=CORE, workers=NPROC)
+    if bfirst.rc != 12 or bfirst.violated != "InvAfterTeardown":
+        raise Broken("MCDrvSignals: destroying the backend before the handler object should violate InvAfterTeardown: rc=%s %s" % (bfirst.rc, bfirst.violated))
+    if len(scen) != 79:
+        raise Broken("MCDrvSignals produced %d scenarios (79 expected)" % len(scen))
     exe = targets.get("h_drv_asan" if tier == "thorough" else "h_drv")
     cases = []
     for i, sc in enumerate(scen):
